@@ -294,6 +294,15 @@ where
         }
         match r.failure {
             None => Ok(()),
+            Some(f) if f.class.starts_with("harness-") => {
+                // a problem of the harness's own environment (a helper binary that could not be spawned, a scratch
+                // file that could not be written): says nothing about the property, never a violation
+                eprintln!("harness problem (case not judged): {}: {}", f.class, f.msg.chars().take(300).collect::<String>());
+                if counting {
+                    *rep.borrow_mut().sums.entry("n_cases_not_judged_harness_problem".to_string()).or_insert(0) += 1;
+                }
+                Ok(())
+            }
             Some(f) => {
                 if let Some(id) = findings.matches_open(def.id, &f) {
                     if counting {
@@ -486,5 +495,66 @@ pub fn finish(id: &str, level: &str, tier: &str, seed: u64, rule: &str, assumpti
             }
         }
         1
+    }
+}
+
+
+/// One libFuzzer iteration: the input bytes are the entropy source of the property's own proptest strategy
+/// (`RngAlgorithm::PassThrough`), so coverage-guided mutation of the bytes explores the same structured case space.
+/// Returns the replay path if the oracle failed on a case that is not a listed finding.
+pub fn fuzz_one<C>(def: &PropDef<C>, data: &[u8], findings: &Findings, scratch: &Path) -> Option<PathBuf>
+where
+    C: Clone + Debug + Serialize + DeserializeOwned + Send + 'static,
+{
+    fuzz_one_mode(def, data, findings, scratch, true)
+}
+
+/// `pass_through = false`: the input bytes only seed a ChaCha stream (32-byte seed = the first 32 input bytes xor a
+/// hash of the whole input). Coverage feedback then works at the level of whole cases (the corpus keeps the seeds of
+/// cases that reached new code) - used for targets whose strategies do not get along with a pass-through source.
+pub fn fuzz_one_mode<C>(def: &PropDef<C>, data: &[u8], findings: &Findings, scratch: &Path, pass_through: bool) -> Option<PathBuf>
+where
+    C: Clone + Debug + Serialize + DeserializeOwned + Send + 'static,
+{
+    use proptest::strategy::ValueTree;
+    install_panic_hook();
+    let strategy = (def.strategy)();
+    // entropy = the input bytes, followed by a pseudo-random tail derived from them: the generator's early decisions
+    // (sizes, first operations) follow the fuzzer's bytes one to one, and rejection loops inside strategies still
+    // terminate when the input is short (a bare pass-through source returns zeros for ever once exhausted)
+    let mut entropy = data.to_vec();
+    let mut x = hash64(data) | 1;
+    for _ in 0..(1 << 13) {
+        x ^= x << 13;
+        x ^= x >> 7;
+        x ^= x << 17;
+        entropy.extend_from_slice(&x.to_le_bytes());
+    }
+    let rng = if pass_through {
+        TestRng::from_seed(RngAlgorithm::PassThrough, &entropy)
+    } else {
+        let mut seed = [0u8; 32];
+        for (i, b) in data.iter().take(32).enumerate() {
+            seed[i] = *b;
+        }
+        let h = hash64(data).to_le_bytes();
+        for i in 0..32 {
+            seed[i] ^= h[i % 8].rotate_left((i / 8) as u32);
+        }
+        TestRng::from_seed(RngAlgorithm::ChaCha, &seed)
+    };
+    let mut runner = TestRunner::new_with_rng(Config { failure_persistence: None, ..Config::default() }, rng);
+    let Ok(tree) = strategy.new_tree(&mut runner) else { return None };
+    let case = tree.current();
+    rm_rf(scratch);
+    let _ = std::fs::create_dir_all(scratch);
+    let r = guarded(|| (def.run)(&case, scratch));
+    rm_rf(scratch);
+    match r.failure {
+        Some(f) if findings.matches_open(def.id, &f).is_none() => {
+            println!("fuzz: {}: {}", f.class, f.msg.chars().take(400).collect::<String>());
+            Some(write_replay(def.id, def.engine, 0, &case, &f))
+        }
+        _ => None,
     }
 }
